@@ -346,6 +346,14 @@ def run(ctx):
         case = gen_case(ctx.rng)
         big = len(case.ballots) * len(case.names) >= 16
         check_case(ctx, case, lines, alloc_cap=(cap if big else None))
+        if ctx.rng.random() < 0.3 and case.projects:
+            # a second EDITION of the same election analysed in the same process: identical project names, ballots and
+            # budget, other costs (anything remembered between calls under a key that ignores the costs shows here)
+            r2 = random.Random(ctx.rng.getrandbits(32))
+            pool = [1, 2, 3, F(1, 2), 4, F(3, 2)]
+            recost = Case([(nm, F(r2.choice(pool))) for nm, _ in case.projects], case.budget, case.btype, case.ballots, seed=case.seed)
+            ctx.count("editions", "recosted")
+            check_case(ctx, recost, lines, alloc_cap=(cap if big else None))
     flush_model(ctx, lines)
 
 
